@@ -377,12 +377,22 @@ def sparse_ranges(sz, r, extra=3):
     return sorted(set(out))
 
 
+def steered_lens(N):
+    """slice / iterator lengths the changed source text points at, tried at a few small capacities (a long argument
+    costs the model time quadratic in its length): all of them up to 1100 at capacities 9, 17 and 100, the two
+    smallest beyond that at capacity 17 only"""
+    if N not in (9, 17, 100):
+        return set()
+    small = [t for t in STEERED if t <= 1100]
+    large = sorted(t for t in STEERED if t > 1100)[:2] if N == 17 else []
+    return {t + d for t in small + large for d in (0, 1)}
+
+
 def wide_ops(c, N, sz, r, kind):
     """single operations with sparse, boundary-biased arguments for a large capacity"""
     out = []
     I = sparse(N, sz, r)
-    lens = sorted({0, 1, 2, max(N - sz - 1, 0), N - sz, N - sz + 1, N - 1, N, N + 1, min(2 * N + 1, 600)} |
-                  {t + d for t in STEERED if t <= (1 << 17) and N <= 100 for d in (0, 1)})
+    lens = sorted({0, 1, 2, max(N - sz - 1, 0), N - sz, N - sz + 1, N - 1, N, N + 1, min(2 * N + 1, 600)} | steered_lens(N))
     if kind == "push":
         return fam_push(c, N, sz)
     if kind in ("mut", "all"):
@@ -417,8 +427,7 @@ def wide_ops(c, N, sz, r, kind):
 
 def wide_io(c, N, sz, r, fams=("std",)):
     out = []
-    lens = sorted({0, 1, 2, max(N - sz - 1, 0), N - sz, N - sz + 1, N - 1, N, N + 1, min(2 * N + 1, 700)} |
-                  {t + d for t in STEERED if t <= (1 << 17) and N <= 100 for d in (0, 1)})
+    lens = sorted({0, 1, 2, max(N - sz - 1, 0), N - sz, N - sz + 1, N - 1, N, N + 1, min(2 * N + 1, 700)} | steered_lens(N))
     big = N in STEERED
     for fam in fams:
         out += ["write %s %s" % (fam, c.es(m)) for m in lens]
